@@ -98,6 +98,8 @@ def check_code_table(log):
 def run(report, tier):
     r = apirun.run_config(report, 'MC_C16', observer=observer, report_kinds=())
     check_code_table(r.log)
+    if tier == 'thorough':      # four calls: two expression-building calls, a comparison, the problem
+        apirun.run_config(report, 'MC_C16', observer=observer, report_kinds=(), tag='deep', overrides={'MaxCalls': 4, 'Stages': '<-MC_StagesDeep'})
     return report.finish(
         rule='every program of <= 3 calls over the C16 signature (names x2/x10/x1y, an 11-element vector, a binary vector, a symmetric '
              'matrix, reversed / strided / partial slices, reductions, comparisons) ending in Problem assembly: Problem.variables, '
